@@ -28,7 +28,8 @@ CONSTANTS MaxN,     \* exhaustive cfgs: hierarchies of 1..MaxN types; simulation
           Shape,    \* "chain": every type embeds at most one type; "fork": some type embeds two; "any"
           Percent,  \* seeded sub-sampling of the enumeration (100 = all of it)
           Seed,
-          Lo, Hi    \* slice of the global index space enumerated by this run
+          Lo, Hi,   \* slice of the global index space enumerated by this run
+          Exclude   \* TRUE: the forms of the listed classes (Excluded_F_C05_k) are not generated
 
 Meths == {"M", "N"}
 EK    == <<"no", "val", "ptr">>      \* embedding kinds
@@ -140,7 +141,17 @@ Probe(I) == CASE I = "IM"       -> << <<"M", "M">> >>
 
 \* dynamic types of the forms: "val" = T1, "ptr" = *T1, "nil"
 Implements(H, i, addr, I) == \A m \in IMeths(I) : MSrule(H, i, m, addr)
-ImplD(H, d, I) == d # "nil" /\ Implements(H, 1, d = "ptr", I)
+
+\* A hierarchy with its method sets tabulated (TLC re-evaluates operators at every use;
+\* the forms below are computed on the tabulated hierarchy, the invariants on the plain one).
+Ext(H) == [n |-> H.n, emb |-> H.emb, meth |-> H.meth,
+           mst  |-> [j \in 1..H.n |-> MethodSet(H, j, FALSE)],
+           mspt |-> [j \in 1..H.n |-> MethodSet(H, j, TRUE)],
+           imp  |-> [a \in BOOLEAN |-> {I \in IFaces \cup HFaces \cup {"E"} : Implements(H, 1, a, I)}],
+           \* receiver kind of the method that Tj.m denotes
+           rkj  |-> [j \in 1..H.n |-> [m \in Meths |->
+                      IF Found(H, j, m) THEN H.meth[Last(Lookup(H, j, m))][m] ELSE "none"]]]
+ImplD(H, d, I) == d # "nil" /\ I \in H.imp[d = "ptr"]
 
 TIdx(t) == CHOOSE j \in 1..4 : t = TName[j] \/ t = PName[j]
 IsT(t)  == \E j \in 1..4 : t = TName[j]
@@ -151,8 +162,8 @@ IsI(t)  == t \in IFaces \cup HFaces \cup {"E"}
 StaticOK(H, S, t) ==
     CASE IsI(t) \/ t = "nil" -> TRUE
       [] t = "int"           -> S = "E"
-      [] IsT(t)              -> IMeths(S) \subseteq MethodSet(H, TIdx(t), FALSE)
-      [] IsPT(t)             -> IMeths(S) \subseteq MethodSet(H, TIdx(t), TRUE)
+      [] IsT(t)              -> IMeths(S) \subseteq H.mst[TIdx(t)]
+      [] IsPT(t)             -> IMeths(S) \subseteq H.mspt[TIdx(t)]
 
 \* the dynamic type d passes x.(t) / matches  case t
 AssertOk(H, d, t) ==
@@ -161,7 +172,7 @@ AssertOk(H, d, t) ==
       [] t = "int" -> FALSE
       [] IsT(t)    -> d = "val" /\ TIdx(t) = 1
       [] IsPT(t)   -> d = "ptr" /\ TIdx(t) = 1
-      [] OTHER     -> \A m \in IMeths(t) : InMS(H, 1, m, d = "ptr")
+      [] OTHER     -> IMeths(t) \subseteq (IF d = "ptr" THEN H.mspt[1] ELSE H.mst[1])
 
 \* index of the first clause with a matching type, 0 = default
 RECURSIVE SwitchFrom(_, _, _, _)
@@ -187,6 +198,11 @@ Facts(H) ==
         def   |-> [m \in Meths |-> IF Found(H, 1, m) THEN Last(Lookup(H, 1, m)) ELSE 0],
         depth |-> [m \in Meths |-> IF Found(H, 1, m) THEN Len(Lookup(H, 1, m)) - 1 ELSE 0],
         rk    |-> [m \in Meths |-> IF Found(H, 1, m) THEN H.meth[Last(Lookup(H, 1, m))][m] ELSE "none"],
+        \* the declaration met first when the embedded fields are searched depth-first in
+        \* declaration order is not the shallowest one
+        dfs   |-> [m \in Meths |->
+                    /\ Found(H, 1, m)
+                    /\ LET first == Min({k \in 1..Len(ps) : H.meth[Last(ps[k])][m] # "none"}) IN ps[first] # Lookup(H, 1, m)],
         msv   |-> MethodSet(H, 1, FALSE),
         msp   |-> MethodSet(H, 1, TRUE)]
 
@@ -344,7 +360,11 @@ AssertForms(H, F) ==
     Flat([i \in 1..(5 * 3) |->
       LET S == SOrd[((i - 1) \div 3) + 1]
           d == D3[((i - 1) % 3) + 1]
-      IN Flat([u \in 1..(2 * Len(ts)) |-> AssertForm(H, F, S, d, ts[((u - 1) \div 2) + 1], u % 2 = 0, FALSE)])])
+      IN Flat([u \in 1..(2 * Len(ts)) |->
+                LET t == ts[((u - 1) \div 2) + 1] IN
+                \* a one-result assertion on a nil interface always panics: three targets are enough
+                IF d = "nil" /\ u % 2 = 1 /\ t \notin {"T1", "IM", "Stringer"} THEN <<>>
+                ELSE AssertForm(H, F, S, d, t, u % 2 = 0, FALSE)])])
     \o Flat([i \in 1..5 |-> Flat([u \in 1..Len(LateTargets) |-> AssertForm(H, F, SOrd[i], "val", LateTargets[u], TRUE, TRUE)])])
 
 \* clause templates; impossible cases (compile errors) are dropped, clause labels kept
@@ -445,19 +465,19 @@ Excluded_F_C05_2(F, f) ==
 \* interface types and type switches
 Excluded_F_C05_3(F, f) ==
     \/ /\ IsAssert(f) /\ f.s = "E" /\ f.d # "nil"
-       /\ \/ f.t \in IFaces /\ NameOK(F, f.t)
+       /\ \/ f.t \in IFaces /\ NameOK(F, f.t) /\ (OkExpected(f) \/ f.k # "assert1")
           \/ f.t \in HFaces /\ (OkExpected(f) \/ f.d = "val")
           \/ f.t = "E" /\ ~\E m \in Meths : F.found[m] /\ F.depth[m] = 0 /\ (f.d = "val" \/ F.rk[m] = "ptr")
     \/ f.k = "switch" /\ f.s = "E" /\ f.d # "nil"
 \* F-C05-4: source of a host interface type (error, fmt.Stringer) holding an interpreted value
 Excluded_F_C05_4(F, f) ==
     \/ /\ IsAssert(f) /\ HostSrc(f) /\ f.d # "nil"
-       /\ \/ OkExpected(f) /\ f.t # f.s
-          \/ ~OkExpected(f) /\ f.d = "val" /\ (IsT(f.t) \/ IsPT(f.t))
+       /\ \/ OkExpected(f) /\ f.t # f.s /\ f.t # "PT1"
+          \/ ~OkExpected(f) /\ f.d = "val" /\ (IsT(f.t) \/ IsPT(f.t)) /\ TIdx(f.t) # 1
     \/ f.k = "switch" /\ HostSrc(f) /\ f.d # "nil"
-\* F-C05-5: x.(T1) rejected as impossible although T1 has the pointer-receiver method through an embedded pointer
-Excluded_F_C05_5(F, f) ==
-    IsAssert(f) /\ f.s # "E" /\ f.t = "T1" /\ \E m \in IMeths(f.s) : F.rk[m] = "ptr"
+\* F-C05-5: x.(Tj) rejected as impossible although Tj has the pointer-receiver method through an embedded pointer
+Excluded_F_C05_5(X, f) ==
+    IsAssert(f) /\ f.s # "E" /\ IsT(f.t) /\ \E m \in IMeths(f.s) : X.rkj[TIdx(f.t)][m] = "ptr"
 \* F-C05-6: a struct value held by an interface value or by a method value with a value
 \* receiver is not a copy (class computed by Late: the form can tell a copy from an alias)
 Excluded_F_C05_6(F, f) == f.x = "copy"
@@ -472,8 +492,15 @@ Excluded_F_C05_8(F, f) ==
     \/ f.k = "fprint" /\ F.found["M"]
     \/ f.k = "sprinti"
 
-Class(F, f) ==
-    CASE Excluded_F_C05_5(F, f) -> "F-C05-5 assertion to T1 from a non-empty interface one of whose methods has a pointer receiver"
+\* F-C05-9: a method is also declared deeper below an EARLIER embedded field: the depth-first
+\* search of lookupMethod finds that one first
+RelM(f) == ({f.m} \cap Meths) \cup IMeths(f.s) \cup IMeths(f.t)
+           \cup UNION {UNION {IMeths(f.cl[u][w]) : w \in 1..Len(f.cl[u])} : u \in 1..Len(f.cl)}
+           \cup (IF f.k \in {"sprint", "errorf", "sprinti", "fprint", "sort"} THEN Meths ELSE {})
+Excluded_F_C05_9(F, f) == \E m \in RelM(f) : F.dfs[m]
+
+Class(X, F, f) ==
+    CASE Excluded_F_C05_5(X, f) -> "F-C05-5 assertion to a struct type from a non-empty interface one of whose methods has a pointer receiver"
       [] Excluded_F_C05_2(F, f) -> "F-C05-2 nil interface value in a two-result assertion or type switch"
       [] Excluded_F_C05_4(F, f) -> "F-C05-4 assertion or type switch on a value of host interface type (error, fmt.Stringer) holding an interpreted value"
       [] Excluded_F_C05_3(F, f) -> "F-C05-3 assertion to an interface type or type switch on an interface{} holding an interpreted struct or pointer"
@@ -481,13 +508,15 @@ Class(F, f) ==
       [] Excluded_F_C05_6(F, f) -> "F-C05-6 struct value held by an interface or method value, variable mutated afterwards"
       [] Excluded_F_C05_7(F, f) -> "F-C05-7 method expression of a promoted method, of a value method through *T, or used as a function value"
       [] Excluded_F_C05_8(F, f) -> "F-C05-8 interpreted value with Error/String/Write methods passed to a fmt function"
+      [] Excluded_F_C05_9(F, f) -> "F-C05-9 method also declared deeper below an earlier embedded field (depth-first lookup)"
       [] OTHER -> ""
 
-Classify(F, fs) == [i \in 1..Len(fs) |-> [fs[i] EXCEPT !.x = Class(F, fs[i])]]
+Classify(X, F, fs) == [i \in 1..Len(fs) |-> [fs[i] EXCEPT !.x = Class(X, F, fs[i])]]
 
 AllForms(H) ==
-    LET F == Facts(H) IN
-    Classify(F, StaticForms(H, F) \o IfaceForms(H, F) \o AssertForms(H, F) \o SwitchForms(H, F) \o HostForms(H, F))
+    LET F == Facts(H)
+        X == Ext(H) IN
+    Classify(X, F, StaticForms(X, F) \o IfaceForms(X, F) \o AssertForms(X, F) \o SwitchForms(X, F) \o HostForms(X, F))
 
 -------------------------------------------------------------------------------
 VARIABLES h, phase, forms
@@ -508,10 +537,12 @@ Init ==
     /\ phase = "static"
     /\ forms = <<>>
 
+Keep(fs) == IF Exclude THEN SelectSeq(fs, LAMBDA f : f.x = "") ELSE fs
+
 Step(from, to, gen(_, _)) ==
     /\ phase = from
     /\ phase' = to
-    /\ forms' = forms \o Classify(Facts(h), gen(h, Facts(h)))
+    /\ forms' = forms \o Keep(Classify(Ext(h), Facts(h), gen(Ext(h), Facts(h))))
     /\ UNCHANGED h
 
 GenStatic == Step("static", "iface",  StaticForms)
@@ -524,13 +555,13 @@ Spec == Init /\ [][Next]_vars
 
 \* seeded simulation: MaxN types, at most two embedded types per struct, shadowing
 RandHier(z) ==
-    LET xs == {RandomElement(0..(Total(MaxN) - 1)) : k \in 1..60}
+    LET xs == {RandomElement(0..(Total(MaxN) - 1)) : k \in 1..30}
         ok == {x \in xs : LET H == Decode(MaxN, x) IN Connected(H) /\ AtMostTwo(H) /\ Unambiguous(H) /\ Shadowing(H)}
-    IN IF ok = {} THEN Decode(MaxN, 0) ELSE Decode(MaxN, RandomElement(ok))
+    IN IF ok = {} THEN z ELSE Decode(MaxN, RandomElement(ok))
 InitSim == h = Decode(1, 0) /\ phase = "done" /\ forms = <<>>
 NextSim == /\ h' = RandHier(h)
            /\ phase' = "done"
-           /\ forms' = SelectSeq(AllForms(h'), LAMBDA f : f.x = "")
+           /\ forms' = Keep(AllForms(h'))
 SpecSim == InitSim /\ [][NextSim]_vars
 
 -------------------------------------------------------------------------------
@@ -566,8 +597,8 @@ InvSwitchFirst ==
        f.k = "switch" =>
           \A u \in 1..Len(f.cl) :
              (f.r = ToString(f.lb[u])) =>
-                /\ \E w \in 1..Len(f.cl[u]) : AssertOk(h, f.d, f.cl[u][w])
-                /\ \A u2 \in 1..(u - 1) : \A w \in 1..Len(f.cl[u2]) : ~AssertOk(h, f.d, f.cl[u2][w])
+                /\ \E w \in 1..Len(f.cl[u]) : AssertOk(Ext(h), f.d, f.cl[u][w])
+                /\ \A u2 \in 1..(u - 1) : \A w \in 1..Len(f.cl[u2]) : ~AssertOk(Ext(h), f.d, f.cl[u2][w])
 
 \* behaviours are handed to the harness from an always-true invariant
 \* (facts: how M and N are found from T1, for the reader of a replay file)
